@@ -47,9 +47,24 @@ pub struct ThreadPlan {
 }
 
 #[derive(Clone, Debug, Serialize, Deserialize)]
+pub struct RenamerPlan {
+    /// semantic renames of the function `main.st` calls, per repetition
+    pub renames: u8,
+    pub yields: u8,
+    pub spin: u16,
+    /// call lines in `main.st` (the analysis the rename runs grows with them)
+    pub call_lines: u16,
+}
+
+#[derive(Clone, Debug, Serialize, Deserialize)]
 pub struct ConcCase {
     pub threads: Vec<ThreadPlan>,
     pub reps: u16,
+    /// Some = "marker mode": besides the apply_source writers one more editor session keeps
+    /// renaming a function that `main.st` calls (rename_symbol rewrites the contended file);
+    /// the writers append one marker line per save instead of replacing the content.
+    #[serde(default)]
+    pub renamer: Option<RenamerPlan>,
     /// true = recorded reproducer in the replay tier
     #[serde(default)]
     pub raw: bool,
@@ -57,6 +72,17 @@ pub struct ConcCase {
 
 pub fn case_from_tape(tape: &Tape, _tier: Tier) -> ConcCase {
     let mut r = Reader::new(tape);
+    // decided first (an exhausted tape reads 0 = whole-content mode); about half of the scripts
+    let renamer = if r.pick(2) == 1 {
+        Some(RenamerPlan {
+            renames: 3 + r.pick(6) as u8,
+            yields: r.pick(3) as u8,
+            spin: r.pick(400) as u16,
+            call_lines: 60 + r.pick(181) as u16,
+        })
+    } else {
+        None
+    };
     let k = 2 + r.pick(5);
     let reps = 20 + r.pick(81) as u16;
     let mut threads = Vec::new();
@@ -91,6 +117,7 @@ pub fn case_from_tape(tape: &Tape, _tier: Tier) -> ConcCase {
     ConcCase {
         threads,
         reps,
+        renamer,
         raw: false,
     }
 }
@@ -287,9 +314,321 @@ fn judge(case: &ConcCase, rep: usize, initial: &str, events: &[Ev], disk: &str) 
     Ok(())
 }
 
+// ---------------------------------------------------------------------------------------
+// marker mode: apply_source writers + a rename_symbol racer
+
+const DECL: &str = "decl.st";
+
+#[derive(Clone, Debug)]
+struct MEv {
+    thread: usize,
+    step: usize,
+    dev: Dev,
+    marker: String,
+    expected: u64,
+    accepted: Option<u64>,
+    conflict: bool,
+    t0: u64,
+    t1: u64,
+}
+
+#[allow(clippy::too_many_arguments)]
+fn marker_writer(
+    ide: &WebIdeState,
+    tok: &str,
+    plan: &ThreadPlan,
+    thread: usize,
+    rep: usize,
+    ticket: &AtomicU64,
+    barrier: &Barrier,
+) -> Vec<MEv> {
+    let mut events = Vec::new();
+    // (version, content) pairs exactly as the server handed them out
+    let mut known: Option<(u64, String)> = ide.open_source(tok, FILE).ok().map(|s| (s.version, s.content));
+    let mut stale: Option<(u64, String)> = None;
+    let mut need_reopen = known.is_none();
+    barrier.wait();
+    for (i, st) in plan.steps.iter().enumerate() {
+        for _ in 0..st.yields {
+            std::thread::yield_now();
+        }
+        let mut acc = 0u64;
+        for n in 0..st.spin {
+            acc = std::hint::black_box(acc.wrapping_add(n as u64));
+        }
+        std::hint::black_box(acc);
+        // Blind (adopting a version without its content) legitimately overwrites: a client that
+        // lies about its base is outside the property; it is run as Protocol here
+        let skip = st.dev == Dev::SkipReopen;
+        if st.reopen_first || (need_reopen && !skip) || matches!(st.dev, Dev::Protocol | Dev::Blind) {
+            if let Ok(s) = ide.open_source(tok, FILE) {
+                if known.is_some() {
+                    stale = known.take();
+                }
+                known = Some((s.version, s.content));
+                need_reopen = false;
+            }
+        }
+        let base = match st.dev {
+            Dev::ReuseStale => stale.clone().or(known.clone()),
+            _ => known.clone(),
+        };
+        let Some((expected, base_content)) = base else {
+            continue;
+        };
+        let marker = format!("// marker r{rep} t{thread} s{i}");
+        let content = format!("{base_content}{marker}\n");
+        let we = st.dev != Dev::WriteDisabled;
+        let t0 = ticket.fetch_add(1, Ordering::SeqCst);
+        let r = ide.apply_source(tok, FILE, expected, content.clone(), we);
+        let t1 = ticket.fetch_add(1, Ordering::SeqCst);
+        let (accepted, conflict) = match r {
+            Ok(w) => {
+                if known.is_some() {
+                    stale = known.take();
+                }
+                known = Some((w.version, content));
+                need_reopen = false;
+                (Some(w.version), false)
+            }
+            Err(e) => {
+                need_reopen = true;
+                (None, e.kind() == IdeErrorKind::Conflict)
+            }
+        };
+        events.push(MEv {
+            thread,
+            step: i,
+            dev: st.dev,
+            marker,
+            expected,
+            accepted,
+            conflict,
+            t0,
+            t1,
+        });
+    }
+    events
+}
+
+fn run_marker_case(case: &ConcCase, rp: &RenamerPlan, scratch: &Path, probe: &mut Probe) -> Result<(), String> {
+    for t in [FILE, DECL] {
+        super::guard::check_template(t).map_err(|why| format!("unsafe: {t:?}: {why}"))?;
+    }
+    let root = scratch.join("conc");
+    let _ = std::fs::remove_dir_all(&root);
+    let project = root.join("project");
+    std::fs::create_dir_all(&project).map_err(|e| format!("fixture: mkdir: {e}"))?;
+    let k = case.threads.len();
+    let reps = (case.reps as usize / 6).clamp(4, 12);
+    let renames = rp.renames.clamp(1, 20) as usize;
+    let call_lines = rp.call_lines.clamp(10, 400) as usize;
+    let mut result = Ok(());
+    let (mut accepted_total, mut conflicts_total, mut renames_ok_total, mut overlap_reps, mut nontrivial_reps) = (0usize, 0usize, 0usize, 0usize, 0usize);
+    for rep in 0..reps {
+        std::fs::write(
+            project.join(DECL),
+            "FUNCTION Helper : INT\nVAR_INPUT\n    v : INT;\nEND_VAR\nHelper := v + 1;\nEND_FUNCTION\n",
+        )
+        .map_err(|e| format!("fixture: write: {e}"))?;
+        let mut main = format!("(* rep {rep} *)\nPROGRAM Main\nVAR\n    x : INT;\nEND_VAR\n");
+        for _ in 0..call_lines {
+            main.push_str("x := Helper(x);\n");
+        }
+        main.push_str("END_PROGRAM\n");
+        std::fs::write(project.join(FILE), &main).map_err(|e| format!("fixture: write: {e}"))?;
+        let ide = Arc::new(WebIdeState::with_clock_for_verif(Some(project.clone()), Arc::new(|| 1_000)));
+        let mut tokens = Vec::new();
+        for plan in &case.threads {
+            let role = if plan.viewer { IdeRole::Viewer } else { IdeRole::Editor };
+            tokens.push(
+                ide.create_session(role)
+                    .map_err(|e| format!("infrastructure: create_session: {e}"))?
+                    .token,
+            );
+        }
+        let renamer_tok = ide
+            .create_session(IdeRole::Editor)
+            .map_err(|e| format!("infrastructure: create_session: {e}"))?
+            .token;
+        let ticket = AtomicU64::new(0);
+        let barrier = Barrier::new(k + 1);
+        let mut all: Vec<MEv> = Vec::new();
+        // (new name, accepted, t0, t1) in call order
+        let mut rename_log: Vec<(String, bool, u64, u64)> = Vec::new();
+        let mut panicked = false;
+        std::thread::scope(|s| {
+            let handles: Vec<_> = case
+                .threads
+                .iter()
+                .enumerate()
+                .map(|(t, plan)| {
+                    let ide = &ide;
+                    let tok = tokens[t].as_str();
+                    let ticket = &ticket;
+                    let barrier = &barrier;
+                    s.spawn(move || marker_writer(ide, tok, plan, t, rep, ticket, barrier))
+                })
+                .collect();
+            let rh = {
+                let ide = &ide;
+                let tok = renamer_tok.as_str();
+                let ticket = &ticket;
+                let barrier = &barrier;
+                s.spawn(move || {
+                    let mut log = Vec::new();
+                    barrier.wait();
+                    for n in 0..renames {
+                        for _ in 0..rp.yields {
+                            std::thread::yield_now();
+                        }
+                        let mut acc = 0u64;
+                        for q in 0..rp.spin {
+                            acc = std::hint::black_box(acc.wrapping_add(q as u64));
+                        }
+                        std::hint::black_box(acc);
+                        let name = format!("Helper{}", (b'A' + (n % 26) as u8) as char);
+                        let position = serde_json::from_value(json!({"line": 0, "character": 10})).expect("position");
+                        let t0 = ticket.fetch_add(1, Ordering::SeqCst);
+                        let r = ide.rename_symbol(tok, DECL, None, position, &name, true);
+                        let t1 = ticket.fetch_add(1, Ordering::SeqCst);
+                        log.push((name, r.is_ok(), t0, t1));
+                    }
+                    log
+                })
+            };
+            for h in handles {
+                match h.join() {
+                    Ok(evs) => all.extend(evs),
+                    Err(_) => panicked = true,
+                }
+            }
+            match rh.join() {
+                Ok(l) => rename_log = l,
+                Err(_) => panicked = true,
+            }
+        });
+        if panicked {
+            result = Err(format!("rep {rep}: a thread panicked inside the web IDE API (marker mode)"));
+            break;
+        }
+        if let Err(why) = super::moat().intact() {
+            result = Err(format!("rep {rep}: a call reached above the scratch project: {why}"));
+            break;
+        }
+        let disk = std::fs::read_to_string(project.join(FILE)).map_err(|e| format!("infrastructure: read back: {e}"))?;
+        let lines: std::collections::BTreeSet<&str> = disk.lines().collect();
+        let verdict = (|| -> Result<(), String> {
+            let mut seen_expected = std::collections::BTreeMap::new();
+            for e in &all {
+                if let Some(v) = e.accepted {
+                    if case.threads[e.thread].viewer {
+                        return Err(format!("a viewer session's write was accepted (thread {} step {})", e.thread, e.step));
+                    }
+                    if e.dev == Dev::WriteDisabled {
+                        return Err(format!("a write with write_enabled=false was accepted (thread {} step {})", e.thread, e.step));
+                    }
+                    if v != e.expected.wrapping_add(1) {
+                        return Err(format!(
+                            "accepted write with expected version {} returned version {v} (thread {} step {})",
+                            e.expected, e.thread, e.step
+                        ));
+                    }
+                    if let Some((t, st)) = seen_expected.insert(e.expected, (e.thread, e.step)) {
+                        return Err(format!(
+                            "two writes based on the same version {} were both accepted: thread {t} step {st} and thread {} step {}",
+                            e.expected, e.thread, e.step
+                        ));
+                    }
+                }
+            }
+            // every accepted save is still in the file: each later accepted write - the other
+            // sessions' saves and the rename's rewrites alike - was based on it
+            let accepted: Vec<&MEv> = all.iter().filter(|e| e.accepted.is_some()).collect();
+            let lost: Vec<&&MEv> = accepted.iter().filter(|e| !lines.contains(e.marker.as_str())).collect();
+            if !lost.is_empty() {
+                let e = lost[0];
+                let during: Vec<String> = rename_log
+                    .iter()
+                    .filter(|(_, _, t0, t1)| *t0 < e.t1 && e.t0 < *t1)
+                    .map(|(n, ok, _, _)| format!("rename_symbol -> {n} ({})", if *ok { "Ok" } else { "refused" }))
+                    .collect();
+                return Err(format!(
+                    "lost update: {} of {} accepted saves are no longer in {FILE} after all threads finished, e.g. {:?} (thread {} step {}, {:?}, expected version {} -> accepted as {}); calls overlapping that save: {:?}; {} of {} rename_symbol calls were accepted",
+                    lost.len(),
+                    accepted.len(),
+                    e.marker,
+                    e.thread,
+                    e.step,
+                    e.dev,
+                    e.expected,
+                    e.accepted.unwrap_or(0),
+                    during,
+                    rename_log.iter().filter(|r| r.1).count(),
+                    rename_log.len()
+                ));
+            }
+            if let Some(e) = all.iter().find(|e| e.accepted.is_none() && lines.contains(e.marker.as_str())) {
+                return Err(format!(
+                    "the marker of a REFUSED write is in the file: {:?} (thread {} step {}, {:?})",
+                    e.marker, e.thread, e.step, e.dev
+                ));
+            }
+            // the calls in the file use the name of the last accepted rename, all of them
+            let last = rename_log.iter().rev().find(|r| r.1).map(|r| r.0.as_str()).unwrap_or("Helper");
+            let want = format!("x := {last}(x);");
+            let calls: Vec<&str> = disk.lines().filter(|l| l.starts_with("x := ")).collect();
+            if calls.len() != call_lines || calls.iter().any(|l| *l != want) {
+                let odd = calls.iter().find(|l| **l != want).copied().unwrap_or("<missing>");
+                return Err(format!(
+                    "after the last accepted rename ({last}) {FILE} has {} call lines, expected {call_lines} x {want:?}; first deviating line {odd:?} - a write based on text from before a rename was accepted",
+                    calls.len()
+                ));
+            }
+            Ok(())
+        })();
+        if let Err(e) = verdict {
+            result = Err(format!("rep {rep} (marker mode, {k} writers + rename_symbol racer): {e}"));
+            break;
+        }
+        let conflicts = all.iter().filter(|e| e.conflict).count();
+        let overlap = all.iter().any(|e| e.t1 != e.t0 + 1) || rename_log.iter().any(|r| r.3 != r.2 + 1);
+        accepted_total += all.iter().filter(|e| e.accepted.is_some()).count();
+        conflicts_total += conflicts;
+        renames_ok_total += rename_log.iter().filter(|r| r.1).count();
+        if overlap {
+            overlap_reps += 1;
+            if conflicts > 0 {
+                nontrivial_reps += 1;
+            }
+        }
+    }
+    let _ = std::fs::remove_dir_all(&root);
+    result?;
+    probe.label("conc_mode=markers+rename_symbol");
+    probe.label(format!("conc_threads={k}"));
+    probe.label(if overlap_reps > 0 { "conc_overlap=yes" } else { "conc_overlap=no" });
+    probe.label(if conflicts_total > 0 { "conc_conflicts=yes" } else { "conc_conflicts=no" });
+    probe.label(if renames_ok_total > 0 { "conc_rename_symbol_accepted=yes" } else { "conc_rename_symbol_accepted=no" });
+    if nontrivial_reps > 0 && renames_ok_total > 0 && accepted_total > 0 {
+        let key = serde_json::to_vec(case).unwrap_or_default();
+        probe.nontrivial(&key);
+        probe.sample(json!({
+            "search": "conc", "mode": "markers + rename_symbol racer", "writers": k, "reps": reps,
+            "renames_per_rep": renames, "call_lines": call_lines, "accepted_saves": accepted_total,
+            "conflicts": conflicts_total, "accepted_renames": renames_ok_total,
+            "reps_with_overlap_and_conflict": nontrivial_reps,
+        }));
+    }
+    Ok(())
+}
+
 pub fn run_case(case: &ConcCase, scratch: &Path, probe: &mut Probe) -> Result<(), String> {
     if case.threads.len() < 2 || case.threads.len() > 8 {
         return Ok(());
+    }
+    if let Some(rp) = &case.renamer {
+        return run_marker_case(case, rp, scratch, probe);
     }
     super::guard::check_template(FILE).map_err(|why| format!("unsafe: {FILE:?}: {why}"))?;
     let root = scratch.join("conc");
@@ -377,6 +716,7 @@ pub fn run_case(case: &ConcCase, scratch: &Path, probe: &mut Probe) -> Result<()
     }
     let _ = std::fs::remove_dir_all(&root);
     result?;
+    probe.label("conc_mode=whole-content writers");
     probe.label(format!("conc_threads={k}"));
     if case.threads.iter().any(|t| t.viewer) {
         probe.label("conc_has_viewer_writer");
